@@ -12,7 +12,7 @@ RULE = ("nine initialisers x shapes of rank 2-5 with >= 20000 elements and fan_i
         "arguments, dtype); non-trivial = a random initialiser (constant fillers are counted as trivial)")
 ASSUMPTIONS = ["6-sigma bands: false-alarm probability < 2e-9 per test; std of the sample std = sigma*sqrt((kurtosis-1)/(4n))",
                "NumPy's global generator is seeded from VERIF_SEED and the case seed"]
-SHARD_TIMEOUT = {"quick": 600, "thorough": 1800}
+SHARD_TIMEOUT = {"quick": 900, "thorough": 3600}
 SHAPES = [[200, 100], [100, 400], [50, 20, 5, 4], [64, 8, 7, 7], [300, 70], [40, 100, 5], [10, 20, 5, 5, 4], [400, 50], [32, 16, 3, 7], [16, 8, 2, 5, 3]]
 RANDOM_INITS = ["uniform_", "normal_", "xavier_uniform_", "xavier_normal_", "kaiming_uniform_", "kaiming_normal_"]
 
